@@ -262,6 +262,23 @@ def _call_edit_call(fn):
     return (ref, second, bool(np.array_equal(ref, second)))
 
 
+def rebuild_world(w):
+    """same world with every shell re-created from its documented attributes (fresh objects, no hidden state)"""
+    import copy as _c
+    from gbasis.contractions import GeneralizedContractionShell as S
+
+    w2 = _c.deepcopy(w)
+    new = []
+    for s in w2["shells"]:
+        f = S(s.angmom, s.coord.copy(), s.coeffs.copy(), s.exps.copy(), s.coord_type, icenter=s.icenter)
+        f.norm_cont = s.norm_cont.copy()
+        new.append(f)
+    w2["shells"] = new
+    w2["basis_tuple"] = tuple(new)
+    w2["basis_list"] = list(new)
+    return w2
+
+
 def _shells_digest(shells):
     return [(s.angmom, s.coord.copy(), s.exps.copy(), s.coeffs.copy(), s.coord_type, s.icenter, s.norm_cont.copy()) for s in shells]
 
@@ -286,7 +303,11 @@ def on_renorm_factory(cfg):
 def evaluate(cfg):
     gb()
     from gbasis.evals.eval import evaluate_basis
+    from gbasis.evals.eval_deriv import evaluate_deriv_basis
+    from gbasis.integrals.electron_repulsion import electron_repulsion_integral
     from gbasis.integrals.kinetic_energy import kinetic_energy_integral
+    from gbasis.integrals.moment import moment_integral
+    from gbasis.integrals.momentum import momentum_integral
     from gbasis.integrals.overlap import overlap_integral
     from gbasis.integrals.point_charge import point_charge_integral
 
@@ -307,6 +328,10 @@ def evaluate(cfg):
                   ("kinetic", lambda w: kinetic_energy_integral(w["basis_list"])),
                   ("evaluate_basis", lambda w: evaluate_basis(w["basis_tuple"], w["points"])),
                   ("point_charge", lambda w: point_charge_integral(w["basis_tuple"], w["charge_coords"], w["charges"], transform=w["T_rect"])),
+                  ("momentum", lambda w: momentum_integral(w["basis_tuple"])),
+                  ("moment", lambda w: moment_integral(w["basis_list"], w["origin"], w["orders"])),
+                  ("eri", lambda w: electron_repulsion_integral(w["basis_tuple"][:2], notation="chemist")),
+                  ("deriv", lambda w: evaluate_deriv_basis(w["basis_tuple"], w["points"], w["deriv_orders"])),
                   ("norms", lambda w: [s.norm_cont for s in w["shells"]])]
         parts = ["shells", "basis_tuple", "basis_list", "points", "charge_coords", "charges", "nuc_coords", "nuc_charges",
                  "origin", "orders", "deriv_orders", "gam_psd", "gam_sym", "gam_asym", "T_sq", "T_rect", "T_bad", "ct_list",
@@ -317,7 +342,7 @@ def evaluate(cfg):
             warnings.simplefilter("ignore")
             ex = HistoryExplorer(o, mk, ops, probes, parts, max_depth=30,
                                  max_states=60 if cfg.get("tier") == "quick" else 400,
-                                 on_renorm=on_renorm_factory(cfg))
+                                 on_renorm=on_renorm_factory(cfg), rebuild=rebuild_world)
             ex.explore()
         o.notes["operations"] = len(ops)
     finally:
